@@ -41,6 +41,25 @@ let ser_tok (t : Model.tok) : string =
   | Model.TCmt s -> "CM:" ^ h s
   | Model.TDoctype s -> "D:" ^ h s
 
+let str_of_bytes (l : Model.byte list) : string =
+  let b = Buffer.create 64 in List.iter (fun x -> Buffer.add_char b (Char.chr (int_of_byte x))) l; Buffer.contents b
+
+let ser_ntok (t : Model.ntok) : string =
+  let s = str_of_bytes in
+  match t with
+  | Model.NOpen (n, attrs, sc) ->
+      "<" ^ s n ^ String.concat "" (List.map (fun a -> match a with
+          | Model.NAttr (k, v) -> " " ^ s k ^ "=[" ^ s v ^ "]"
+          | Model.NStyle ds -> " style={" ^ String.concat ";" (List.map (fun (p, v) -> s p ^ ":" ^ s v) ds) ^ "}") attrs) ^ (if sc then " /" else "") ^ ">"
+  | Model.NClose n -> "</" ^ s n ^ ">"
+  | Model.NText x -> "TEXT[" ^ s x ^ "]"
+  | Model.NMsoOpen c -> "MSO-OPEN[" ^ s c ^ "]"
+  | Model.NMsoEnd -> "MSO-END"
+  | Model.NNotMsoOpen c -> "NOTMSO-OPEN[" ^ s c ^ "]"
+  | Model.NNotMsoEnd -> "NOTMSO-END"
+  | Model.NCmt x -> "COMMENT[" ^ s x ^ "]"
+  | Model.NDoctype x -> "DOCTYPE[" ^ s x ^ "]"
+
 let () =
   self_test ();
   try
@@ -50,7 +69,17 @@ let () =
       | None -> print_endline "BAD"
       | Some i ->
         let fn = String.sub line 0 i in
-        let arg = if fn = "merge" then [] else bytes_of_hex (String.sub line (i + 1) (String.length line - i - 1)) in
+        let arg = if fn = "merge" || fn = "equiv" || fn = "normdump" then [] else bytes_of_hex (String.sub line (i + 1) (String.length line - i - 1)) in
+        if fn = "normdump" then begin
+          let arg = bytes_of_hex (String.sub line (i + 1) (String.length line - i - 1)) in
+          print_endline (String.concat "\x01" (List.map (fun t -> String.map (fun c -> if c = '\n' then ' ' else c) (ser_ntok t)) (Model.m_norm arg))) end
+        else
+        if fn = "equiv" then begin
+          let rest = String.sub line (i + 1) (String.length line - i - 1) in
+          let k = String.index rest ':' in
+          let a = bytes_of_hex (String.sub rest 0 k) and b = bytes_of_hex (String.sub rest (k + 1) (String.length rest - k - 1)) in
+          print_endline (match Model.m_equiv_diff a b with None -> "EQ" | Some n -> string_of_int (nat_to_int n)) end
+        else
         if fn = "merge" then begin
           let rest = String.sub line (i + 1) (String.length line - i - 1) in
           let k = String.index rest ':' in
